@@ -42,6 +42,7 @@ def renStmt (π : Ren) : Stmt → Stmt
   | .return_ v => .return_ (renO π v)
   | .assign ts v => .assign (renEs π ts) (renE π v)
   | .augAssign tg op v => .augAssign (renE π tg) op (renE π v)
+  | .annAssign tg ann v simple => .annAssign (renE π tg) (renE π ann) (renO π v) simple
   | .for_ a tg it body orelse => .for_ a (renE π tg) (renE π it) (renBody π body) (renBody π orelse)
   | .while_ c body orelse => .while_ (renE π c) (renBody π body) (renBody π orelse)
   | .if_ c body orelse => .if_ (renE π c) (renBody π body) (renBody π orelse)
@@ -113,6 +114,7 @@ def namesS : Stmt → List String
   | .return_ v => namesO v
   | .assign ts v => namesEs ts ++ namesE v
   | .augAssign tg _ v => namesE tg ++ namesE v
+  | .annAssign tg ann v _ => namesE tg ++ namesE ann ++ namesO v
   | .for_ _ tg it body orelse => namesE tg ++ namesE it ++ namesL body ++ namesL orelse
   | .while_ c body orelse => namesE c ++ namesL body ++ namesL orelse
   | .if_ c body orelse => namesE c ++ namesL body ++ namesL orelse
